@@ -1,7 +1,8 @@
 (* C13 — Project context only re-ranks, in favour of commands that mention it.  Statements only. *)
-From Coq Require Import List ZArith NArith Bool Floats Sorting.Permutation.
-From WTF Require Import Model.Validate Model.Text Model.Platform Model.Engine Proofs.EngineProofs Proofs.CandidateProofs.
+From Coq Require Import List String ZArith NArith Bool Floats Sorting.Permutation.
+From WTF Require Import Model.Validate Model.Text Model.Platform Model.Engine Model.Context Proofs.EngineProofs Proofs.CandidateProofs Proofs.ContextProofs.
 Import ListNotations.
+Close Scope string_scope.
 
 (* boosts never add or remove a candidate (NLP on or off, any boost map), compared at a limit that cuts nothing *)
 Theorem boost_same_candidates : forall E cmds q o nl,
@@ -21,6 +22,35 @@ Theorem boost_local : forall E cmds av tb tb' terms c,
   doc_score E cmds av tb terms c = doc_score E cmds av tb' terms c.
 Proof. exact boost_local. Qed.
 
+(* ---- detecting the context of a directory (Model/Context.v; the listing is any list of entry names) ---- *)
+
+(* each project type is reported at most once *)
+Theorem detect_reports_each_type_once : forall listing, NoDup (detect listing).
+Proof. exact detect_nodup. Qed.
+
+(* 'generic' exactly when nothing is recognised, and then alone *)
+Theorem detect_generic_exactly_when_nothing : forall listing,
+  (In (P "generic"%string) (detect listing) <-> raw_types listing = []) /\ (raw_types listing = [] -> detect listing = [P "generic"%string]).
+Proof. exact (fun l => conj (detect_generic_iff l) (detect_generic_alone l)). Qed.
+
+(* the reported types are exactly those carried by some entry of the listing *)
+Theorem detect_exact : forall listing t, t <> P "generic"%string ->
+  (In t (detect listing) <-> exists f, In f listing /\ In t (types_of_file f)).
+Proof. exact detect_exact. Qed.
+
+(* only finite boosts of at least 1, whatever the types, script names and make targets *)
+Theorem boosts_finite_at_least_1 : forall types scripts targets k v,
+  boost_lookup types scripts targets k = Some v -> (PrimFloat.leb 1 v && PrimFloat.ltb v infinity)%bool = true.
+Proof. exact boosts_good. Qed.
+
+Example detect_interleaved_markers :
+  detect (map bs ["Dockerfile"; "Makefile"; "docker-compose.yml"]%string) = map bs ["docker"; "make"]%string.
+Proof. vm_compute. reflexivity. Qed.
+
 Print Assumptions boost_same_candidates.
 Print Assumptions candidates_ignore_boosts.
 Print Assumptions boost_local.
+Print Assumptions detect_reports_each_type_once.
+Print Assumptions detect_generic_exactly_when_nothing.
+Print Assumptions detect_exact.
+Print Assumptions boosts_finite_at_least_1.
